@@ -110,10 +110,10 @@ def write_then_forget(ctx: Ctx, chk, loss_only: bool = False) -> None:
             else:
                 # a guarded removal (identity re-validation, C09) is the accepted exception: the false branch skips it
                 tests = [x for x in p if x.kind == "test"]
-                from .c09 import revalidation
+                from .c09 import positive_form, revalidation
 
                 def still_there(t):
-                    te = t.ast
+                    te = positive_form(t.ast)[0]
                     if revalidation(te, "set_messages", fl.key_name or "") is not None:
                         return True
                     return isinstance(te, ast.Compare) and len(te.ops) == 1 and isinstance(te.ops[0], ast.In) and norm(te.left) == (fl.key_name or "") and sb.buffer_attr(te.comparators[0]) == "set_messages"
